@@ -13,6 +13,12 @@ Two kinds of case:
   again — every round of estimates judged against the values the object really holds, and the same
   operations run on Model/ProfileEst.lean (the Distogram an estimate leaves on the object is part of
   the model's state).
+* "tseq": a sequence on **table** profile registers — frames with different column sets and row counts are profiled
+  through `DataFrame.profile`, added with `TableProfile.__add__` (placeholder for a column the right table lacks), and
+  every numeric column a sum has is judged against the concatenated data (a missing column = nulls); the same
+  operations run on Model/TableProf.lean.
+* one-batch "profile" cases also assert numpy.histogram's contract (the hypothesis of C14.one_batch_profile_ok) on the
+  data and compare the kept histogram with the model's comprehension (`C14 phist`).
 
 Oracle = the property's clauses on the implementation's outputs (floats with relative tolerance
 1e-9, the property's "up to rounding").  Correspondence = the same queries on
@@ -88,6 +94,19 @@ def rank_levels(h):
     return sorted(q for q in qs if 0.0 <= q <= 1.0)
 
 
+def outside_levels(h):
+    """Quantile levels just outside [0, 1]: within 1 / total of either end (where a guard applied to the truncated rank
+    `int(total * q)` instead of the level would still answer), exactly 1 / total away, and one float below 0 / above 1."""
+    total = sum(int(f) for _, f in h.bins)
+    if total <= 0:
+        return []
+    out = [math.nextafter(0.0, -math.inf), math.nextafter(1.0, math.inf)]
+    for k in (Fraction(1, 1000), Fraction(1, 2), Fraction(999, 1000), Fraction(1), Fraction(1001, 1000)):
+        out.append(float(-k / total))
+        out.append(float(1 + k / total))
+    return [q for q in out if q < 0.0 or q > 1.0]
+
+
 def count_branch(h, x, lo=None, hi=None):
     """Which branch of count_at answers the exact query point x (measured for the evidence)."""
     lo, hi = exact(h.min) if lo is None else lo, exact(h.max) if hi is None else hi
@@ -106,7 +125,8 @@ def count_branch(h, x, lo=None, hi=None):
 
 def quantile_branch(h, q):
     if q < 0 or q > 1:
-        return "outside"
+        total = sum(int(f) for _, f in h.bins)
+        return "outside" + (" (within 1/total of [0, 1])" if total and (-1 < q * total < 0 or total < q * total < total + 1) else "")
     total = sum(int(f) for _, f in h.bins)
     r = int(total * q)  # Python's int() on the same product the code forms (exact in both modes for these sizes)
     f0, fl = int(h.bins[0][1]), int(h.bins[-1][1])
@@ -310,7 +330,7 @@ def query_round(mode, D, h, case, res, reg, truth=None, every_rank=False):
         lo, hi, total = exact(h.min), exact(h.max), Fraction(sum(int(f) for _, f in h.bins))
     lo_f, hi_f = float(lo), float(hi)
     xs_f = sorted(set(grid_points(h, case.get("grid", 16), lo_f, hi_f) + [float(x) for x in case.get("xs", [])]))
-    qs_f = sorted(set(level_points(case.get("levels", 16)) + rank_levels(h) + (all_rank_levels(h) if every_rank else [])
+    qs_f = sorted(set(level_points(case.get("levels", 16)) + rank_levels(h) + outside_levels(h) + (all_rank_levels(h) if every_rank else [])
                       + [float(q) for q in case.get("qs", [])]))
     told = {"judged_against": "the inserted values" if truth is not None else "what the histogram reports",
             "reported": [None if h.min is None else float(h.min), None if h.max is None else float(h.max), int(sum(int(f) for _, f in h.bins))]}
@@ -668,6 +688,26 @@ def compare_hseq(ctx, c, r):
                     return
 
 
+def bin_limit():
+    from orso.profiler import distogram
+
+    return int(distogram.BIN_COUNT)
+
+
+def fits_together(a, b):
+    """Do the histograms of two column profiles fit into one without trimming?  (The hypothesis of
+    C14.small_sum_keeps_first_bin_at_minimum: then the sum's first bin stays at its minimum - no left tail.)"""
+    return len(a.histogram or []) + len(b.histogram or []) <= bin_limit()
+
+
+def mark_no_trim(fit, *fails):
+    """A failure on a profile no `+` of which could have trimmed is not the open finding C14-K01 (its predicate looks at this)."""
+    if fit:
+        for f in fails:
+            if f is not None:
+                f[1]["no_trim"] = True
+
+
 def build_profile(values, typ="INTEGER"):
     """The column profile of one batch.  `typ` "DOUBLE": the same integer values as floats (the second way into
     NumericProfiler), "DOUBLE-0": with every 0 written as -0.0."""
@@ -776,12 +816,15 @@ def run_profile_case(case):
     nn = [v for v in values if v is not None]
     try:
         typ = case.get("type", "INTEGER")
+        fit = "gen" not in case and len(values) <= 25000
         if batches is None:
             col = build_profile(values, typ)
         else:
             col = build_profile(batches[0], typ)
             for b in batches[1:]:
-                col = col + build_profile(b, typ)
+                nxt = build_profile(b, typ)
+                fit = fit and fits_together(col, nxt)
+                col = col + nxt
     except Exception as e:
         res.fail = ("raised: profiling an integer column raised %s" % type(e).__name__, {"error": repr(e)[:200]})
         return res
@@ -800,6 +843,7 @@ def run_profile_case(case):
         return res
     hist = list(col.histogram)
     hard, left_fail = judge_probes(probes, below, above, nonnull, lo, hi, col.minimum, col.maximum, hist)
+    mark_no_trim(fit, hard, left_fail)
     if hard is not None:
         res.fail = hard
         return res
@@ -807,6 +851,20 @@ def run_profile_case(case):
     bins = [(v, int(f)) for v, f in hist]
     line = model_eval_line("f", bins, col.minimum, col.maximum, [float(p) for p in probes], [], int(col.count), int(col.missing))
     res.items.append(("profile", line, below, above, Fraction(nonnull), Fraction(1), probes, [], set()))
+    if batches is None and "values" in case and len(values) <= 25000 and lo < hi:
+        # ONE batch: numpy.histogram is a parameter of the theorems (C14.one_batch_profile_ok) - its contract is checked here on
+        # the very data, and the comprehension the profiler applies to it is run on the model (Profile.histogramOf, regenerated)
+        import numpy
+        from orso.profiler import profiler as _pm
+
+        data = numpy.array([float(v) for v in nn]) if len(nn) != len(values) or typ != "INTEGER" else numpy.array(nn)
+        hc, be = numpy.histogram(data, bins=_pm.DISTOGRAM_BIN_COUNT)
+        hc, be = [int(x) for x in hc], [float(x) for x in be]
+        if not (len(be) == len(hc) + 1 and all(a < b for a, b in zip(be, be[1:])) and be[0] == lo and be[-1] == hi and sum(hc) == len(nn)
+                and hc[0] > 0 and all(x >= 0 for x in hc)):
+            raise InfraError("numpy.histogram does not keep the contract the theorems assume (values %r)" % (values[:20],))
+        res.numpy_contract = True
+        res.items.append(("phist", "C14 phist " + wire.line("f", hc, be), [[float(v), int(f)] for v, f in hist], None, None, None, None, None, set()))
     return res
 
 
@@ -849,6 +907,7 @@ def run_pseq_case(case):
         return res
     bases = [prof_fields(p) for p in base]
     regs = {i: (p, [v for v in cols[i] if v is not None]) for i, p in enumerate(base)}
+    fits = {i: len(cols[i]) <= 25000 for i in range(len(base))}  # no `+` that made this register could have trimmed
     mops, rounds = [], []
     left_fail = None
     for k, op in enumerate(case["ops"]):
@@ -877,6 +936,7 @@ def run_pseq_case(case):
                             {"error": repr(e)[:200], "op": k, "min": col.minimum, "max": col.maximum, "true_range": [min(nn), max(nn)]})
                 return res
             hard, lf = judge_probes(probes, below, above, len(nn), min(nn), max(nn), col.minimum, col.maximum, list(col.histogram))
+            mark_no_trim(fits[op[1]], hard, lf)
             if hard is not None:
                 hard[1]["op"] = k
                 res.fail = hard
@@ -888,6 +948,8 @@ def run_pseq_case(case):
             rounds.append((k, probes, below, above, len(nn)))
         else:
             try:
+                if kind != "copy":
+                    fit_new = fits[op[2]] and fits[op[3]] and fits_together(regs[op[2]][0], regs[op[3]][0])
                 if kind == "add":
                     new = regs[op[2]][0] + regs[op[3]][0]
                 elif kind == "tadd":
@@ -902,10 +964,12 @@ def run_pseq_case(case):
                 return res
             if kind == "copy":
                 regs[op[1]] = (new, list(regs[op[2]][1]))
+                fits[op[1]] = fits[op[2]]
                 mops.append(["copy", op[1], op[2]])
             else:
                 regs[op[1]] = (new, regs[op[2]][1] + regs[op[3]][1])
-                mops.append(["add", op[1], op[2], op[3]])
+                fits[op[1]] = fit_new
+                mops.append([kind, op[1], op[2], op[3]])
     res.fail = left_fail
     if rounds:
         res.items.append(("pseq", "C14 pseq " + wire.line("f", bases, mops), mops, rounds, None, None, None, None, set()))
@@ -941,7 +1005,211 @@ def valid_pseq(c):
     return isinstance(c.get("probes", []), list) and all(isinstance(p, (int, float)) and not isinstance(p, bool) for p in c.get("probes", []))
 
 
+# --------------------------------------------------------------------------- sequences on table profiles
+
+TABLE_TYPES = ("INTEGER", "DOUBLE", "DOUBLE-0", "VARCHAR", "BOOLEAN")
+NUMERIC_TYPES = ("INTEGER", "DOUBLE", "DOUBLE-0")
+
+
+def _cell(typ, v):
+    if v is None:
+        return None
+    if typ == "INTEGER":
+        return v
+    if typ == "VARCHAR":
+        return "s%d" % v
+    if typ == "BOOLEAN":
+        return v % 2 == 0
+    return -0.0 if (v == 0 and typ == "DOUBLE-0") else float(v)
+
+
+def build_table(cols):
+    """The TableProfile of one frame: `cols` = [[name, type, values], ...], every column of the same length (integers and
+    None; a VARCHAR / BOOLEAN column is derived from them).  A table without rows has no columns at all (that is what
+    `from_dataframe` returns for it)."""
+    import orso
+    from orso.profiler import TableProfile
+    from orso.schema import FlatColumn, RelationSchema
+    from orso.types import OrsoTypes
+
+    if not cols:
+        return TableProfile()
+    tmap = {"INTEGER": OrsoTypes.INTEGER, "DOUBLE": OrsoTypes.DOUBLE, "DOUBLE-0": OrsoTypes.DOUBLE, "VARCHAR": OrsoTypes.VARCHAR,
+            "BOOLEAN": OrsoTypes.BOOLEAN}
+    sch = RelationSchema(name="t", columns=[FlatColumn(name=n, type=tmap[t]) for n, t, _ in cols])
+    n = len(cols[0][2])
+    rows = [tuple(_cell(t, vs[i]) for _, t, vs in cols) for i in range(n)]
+    return orso.DataFrame(rows=rows, schema=sch).profile
+
+
+def table_fields(tp):
+    """What the model is told about a freshly built table profile: every column's name and estimator fields."""
+    out = []
+    for name, col in zip(tp._column_names, tp._columns):
+        mn = None if col.minimum is None else float(col.minimum)
+        mx = None if col.maximum is None else float(col.maximum)
+        out.append([name, [int(col.count), int(col.missing), mn, mx, [[float(v), int(f)] for v, f in (col.histogram or [])]]])
+    return out
+
+
+class TTruth:
+    """What a table profile stands for: per column name the values (None = null) of all the rows it covers, in the
+    order the frames were concatenated; a column a frame does not have is null on all of that frame's rows."""
+
+    def __init__(self, names, cols, types, rows):
+        self.names, self.cols, self.types, self.rows = list(names), dict(cols), dict(types), rows
+
+
+def run_tseq_case(case):
+    """A sequence on **table** profile registers.  Register i starts as the profile of frame `tables[i]`; `["tadd", dst, a, b]`
+    stores `T[a] + T[b]` (`TableProfile.__add__`: the glue above `ColumnProfile.__add__`, with a placeholder for a column
+    the right table lacks); `["q", t, first]` asks **every numeric column the table profile has** for its estimates and judges
+    them by the profile clauses against the concatenated data (a column missing in a frame = all nulls on its rows)."""
+    res = Res()
+    res.fail = None
+    res.items = []
+    res.c13_failed = False
+    res.hits = []
+    try:
+        T = {i: build_table(t) for i, t in enumerate(case["tables"])}
+    except Exception as e:
+        res.fail = ("raised: profiling a frame raised %s" % type(e).__name__, {"error": repr(e)[:200]})
+        return res
+    bases = [table_fields(T[i]) for i in range(len(case["tables"]))]
+    truth = {}
+    for i, t in enumerate(case["tables"]):
+        truth[i] = TTruth([c[0] for c in t], {c[0]: list(c[2]) for c in t}, {c[0]: c[1] for c in t}, len(t[0][2]) if t else 0)
+    mops, rounds = [], []
+    left_fail = None
+    tfits = {i: {c[0]: True for c in t} for i, t in enumerate(case["tables"])}  # per column: no `+` behind it could have trimmed
+    for k, op in enumerate(case["ops"]):
+        if op[0] == "tadd":
+            a, b = truth[op[2]], truth[op[3]]
+            fa, fb = tfits[op[2]], tfits[op[3]]
+            new_fits = {}
+            for n in a.names:
+                lc, rc = T[op[2]].column(n), T[op[3]].column(n)
+                new_fits[n] = bool(fa.get(n)) and (rc is None or (bool(fb.get(n)) and lc is not None and fits_together(lc, rc)))
+            try:
+                new = T[op[2]] + T[op[3]]
+            except Exception as e:
+                res.fail = ("raised: adding two table profiles raised %s" % type(e).__name__, {"error": repr(e)[:200], "op": k})
+                return res
+            names = list(new._column_names)
+            if len(set(names)) != len(names) or len(new._columns) != len(names):
+                res.fail = ("raised: the sum of two table profiles lists a column twice", {"names": names, "op": k})
+                return res
+            cols, types = {}, {}
+            for n in names:
+                if n not in a.cols and n not in b.cols:
+                    res.fail = ("raised: the sum of two table profiles has a column neither table has", {"name": n, "op": k})
+                    return res
+                cols[n] = (a.cols[n] if n in a.cols else [None] * a.rows) + (b.cols[n] if n in b.cols else [None] * b.rows)
+                types[n] = a.types.get(n, b.types.get(n))
+            for n in a.names:
+                res.hits.append("tseq column: on both sides" if n in b.cols else "tseq column: missing on the right")
+            for n in b.names:
+                if n not in a.cols:
+                    res.hits.append("tseq column: missing on the left (%s by the sum)" % ("kept" if n in cols else "not carried"))
+            res.hits.append("tseq rows: %s" % ("equal" if a.rows == b.rows else "right table empty" if b.rows == 0 else "left table empty" if a.rows == 0
+                                              else "right shorter" if b.rows < a.rows else "right longer"))
+            T[op[1]] = new
+            tfits[op[1]] = new_fits
+            truth[op[1]] = TTruth(names, cols, types, a.rows + b.rows)
+            mops.append(["tadd", op[1], op[2], op[3]])
+            rounds.append(("tadd", k, names, [int(c.count) for c in new._columns], [int(c.missing) for c in new._columns],
+                           [types[n] in NUMERIC_TYPES for n in names]))
+            continue
+        tp, tr = T[op[1]], truth[op[1]]
+        first = op[2] if len(op) > 2 else "ba"
+        for name in tr.names:
+            if tr.types.get(name) not in NUMERIC_TYPES:
+                continue
+            nn = [v for v in tr.cols[name] if v is not None]
+            if not nn:
+                continue  # no observed range: the property says nothing
+            col = tp.column(name)
+            if col is None:
+                res.fail = ("raised: a column of the table profile cannot be looked up by its name", {"name": name, "op": k})
+                return res
+            probes = seq_probes(nn, case.get("probes", []))
+            below, above = [], []
+            try:
+                for p in probes:
+                    if first == "at":
+                        col.estimate_values_at(p)
+                    if first == "ab":
+                        a_ = col.estimate_values_above(p)
+                        b_ = col.estimate_values_below(p)
+                    else:
+                        b_ = col.estimate_values_below(p)
+                        a_ = col.estimate_values_above(p)
+                    below.append(exact(b_))
+                    above.append(exact(a_))
+            except Exception as e:
+                res.fail = ("raised: profile estimator raised %s" % type(e).__name__,
+                            {"error": repr(e)[:200], "op": k, "column": name, "min": col.minimum, "max": col.maximum, "true_range": [min(nn), max(nn)]})
+                return res
+            hard, lf = judge_probes(probes, below, above, len(nn), min(nn), max(nn), col.minimum, col.maximum, list(col.histogram))
+            mark_no_trim(tfits[op[1]].get(name), hard, lf)
+            if hard is not None:
+                hard[1].update({"op": k, "column": name, "count": int(col.count), "missing": int(col.missing), "rows_covered": tr.rows})
+                res.fail = hard
+                return res
+            if lf is not None and left_fail is None:
+                lf[1].update({"op": k, "column": name})
+                left_fail = lf
+            mops.append(["q", op[1], name, [float(p) for p in probes]])
+            rounds.append(("q", k, name, probes, below, above, len(nn)))
+    res.fail = left_fail
+    if rounds:
+        res.items.append(("tseq", "C14 tseq " + wire.line("f", bases, mops), mops, rounds, None, None, None, None, set()))
+    return res
+
+
+def valid_tseq(c):
+    tables, ops = c.get("tables"), c.get("ops")
+    if not isinstance(tables, list) or not tables or len(tables) > 6 or not isinstance(ops, list) or not ops or len(ops) > 30:
+        return False
+    for t in tables:
+        if not isinstance(t, list) or len(t) > 6:
+            return False
+        names = []
+        for col in t:
+            if not (isinstance(col, list) and len(col) == 3 and isinstance(col[0], str) and col[0] and col[1] in TABLE_TYPES and isinstance(col[2], list)):
+                return False
+            if not col[2] or len(col[2]) != len(t[0][2]) or len(col[2]) > 3000:
+                return False
+            if not all(v is None or (isinstance(v, int) and not isinstance(v, bool) and abs(v) < 2**50) for v in col[2]):
+                return False
+            names.append(col[0])
+        if len(set(names)) != len(names):
+            return False
+    kinds = {}
+    for t in tables:
+        for col in t:
+            # a column name means one kind of column in every frame of the case (adding a text column's profile to a numeric one is not a use)
+            if kinds.setdefault(col[0], col[1][:6]) != col[1][:6]:
+                return False
+    have = set(range(len(tables)))
+    for op in ops:
+        if not isinstance(op, list) or not op:
+            return False
+        if op[0] == "tadd":
+            if len(op) != 4 or not all(isinstance(x, int) and not isinstance(x, bool) for x in op[1:]) or not 0 <= op[1] < 12 or op[2] not in have or op[3] not in have:
+                return False
+            have.add(op[1])
+        elif op[0] == "q":
+            if len(op) not in (2, 3) or op[1] not in have or (len(op) == 3 and op[2] not in ("ba", "ab", "at")):
+                return False
+        else:
+            return False
+    return isinstance(c.get("probes", []), list) and all(isinstance(p, (int, float)) and not isinstance(p, bool) for p in c.get("probes", []))
+
+
 def run_case(case):
+    if case.get("kind") == "tseq":
+        return run_tseq_case(case)
     if case.get("kind") == "pseq":
         return run_pseq_case(case)
     if case.get("kind") == "hseq":
@@ -954,6 +1222,8 @@ def valid_case(c):
         return False
     if c.get("type", "INTEGER") not in ("INTEGER", "DOUBLE", "DOUBLE-0"):
         return False
+    if c.get("kind") == "tseq":
+        return valid_tseq(c)
     if c.get("kind") == "pseq":
         return valid_pseq(c)
     if c.get("kind") == "hseq":
@@ -1027,8 +1297,12 @@ def evaluate(ctx, cases):
         kind = c.get("kind", "hist")
         ctx.case(c, nontrivial=bool(r.items) or r.fail is not None)
         ctx.hit("kind:" + kind)
-        if kind in ("profile", "pseq"):
+        if kind in ("profile", "pseq", "tseq"):
             ctx.hit("family:" + c.get("family", kind + ":?"))
+        if kind == "tseq":
+            ctx.hit("tseq tables:" + c.get("pair", "random"))
+            for k in getattr(r, "hits", []):
+                ctx.hit(k)
         if kind in ("hist", "hseq"):
             ctx.hit("mode:" + c["mode"])
             ctx.hit("family:" + c.get("family", "?"))
@@ -1066,7 +1340,7 @@ def evaluate(ctx, cases):
             c_min = c if ctx.replaying else shrink(c, still, budget=8 if "gen" in c else ctx.scale(700, 1500) if kind == "hseq" else ctx.scale(400, 800))
             r2 = run_case(c_min)
             f = r2.fail or r.fail
-            if not ctx.replaying and getattr(ctx, "_pending_stateful", None) is not None and kind != "pseq":
+            if not ctx.replaying and getattr(ctx, "_pending_stateful", None) is not None and kind not in ("pseq", "tseq"):
                 continue  # already known to depend on earlier cases; only a sequence case can be self-contained
             if not ctx.replaying and getattr(ctx, "_alone_checks", 0) < 10:
                 # a replay runs in a fresh process: make sure the input fails there too (an implementation that keeps state
@@ -1089,9 +1363,21 @@ def evaluate(ctx, cases):
             if kind == "pseq":
                 compare_pseq(ctx, c, cs, rs, wire.dec_all(mo[3:])[0])
                 continue
+            if kind == "tseq":
+                compare_tseq(ctx, c, cs, rs, wire.dec_all(mo[3:])[0])
+                continue
+            if reg == "phist":
+                ctx.hit("one-batch profile: numpy.histogram's contract checked, comprehension compared with the model")
+                mh = [[float(v), int(f)] for v, f in wire.dec_all(mo[3:])[0]]
+                if mh != cs:
+                    ctx.disagree(c, cs[:6], mh[:6], what="the histogram a one-batch profile keeps differs from the model's comprehension over numpy.histogram")
+                    break
+                continue
             mode = "f" if kind == "profile" else c["mode"]
             m = wire.dec_all(mo[3:])
             mc, mq, ma = dec_vals(mode, m[0]), dec_vals(mode, m[1]), dec_vals(mode, m[2])
+            if kind == "profile":
+                mc = dec_vals(mode, m[3])  # estimate_values_below: the model's generated return expression over count_at
             ctx.hit("count_at points", len(cs))
             ctx.hit("quantile levels" if kind in ("hist", "hseq") else "profile probes", len(rs))
             dis = None
@@ -1145,6 +1431,43 @@ def compare_pseq(ctx, c, mops, rounds, mouts):
                 if not close(a, b, Fraction(max(nonnull, 1))):
                     ctx.disagree(c, None if a is None else float(a), None if b is None else float(b),
                                  what="%s differs from the model at %r (operation %d of the sequence)" % (what, x, k))
+                    return
+
+
+def compare_tseq(ctx, c, mops, rounds, mouts):
+    """Correspondence of a table-level sequence: which columns every sum has, what each of them reports as `count` and
+    `missing`, and every round of estimates, against Model/TableProf.lean running the same operations from the freshly
+    built table profiles (placeholder for a column the right table lacks as the source builds it now)."""
+    if len(mouts) != len(mops) or len(rounds) != len(mops):
+        raise InfraError("model answered %d of %d operations" % (len(mouts), len(mops)))
+    for op, rd, mo in zip(mops, rounds, mouts):
+        if op[0] == "tadd":
+            _, k, names, counts, missings, numeric = rd
+            ctx.hit("tseq:tadd")
+            if not (isinstance(mo, list) and mo and mo[0] == "ok"):
+                ctx.disagree(c, "the sum exists", mo, what="adding two table profiles fails in the model (%r)" % (mo,))
+                return
+            if list(mo[1]) != names:
+                ctx.disagree(c, names, list(mo[1]), what="the columns of the sum of two table profiles differ from the model's (operation %d)" % k)
+                return
+            mc, mm = dec_vals("f", mo[2]), dec_vals("f", mo[3])
+            # C14 is about the number of non-null values a column stands for (`count - missing`); `count` itself is C15's
+            for n, ic, im, c_, m_, num in zip(names, counts, missings, mc, mm, numeric):
+                if num and Fraction(ic) - Fraction(im) != c_ - m_:
+                    ctx.disagree(c, ic - im, float(c_ - m_), what="`count - missing` of column %r of the sum of two table profiles differs from the model (operation %d)" % (n, k))
+                    return
+            continue
+        _, k, name, probes, below, above, nonnull = rd
+        ctx.hit("tseq:q")
+        ctx.hit("profile probes", len(probes))
+        if not (isinstance(mo, list) and mo and mo[0] == "q"):
+            raise InfraError("model answered %r to a round of estimates" % (mo,))
+        mb, ma = dec_vals("f", mo[1]), dec_vals("f", mo[2])
+        for what, impl, mod in (("estimate_values_below", below, mb), ("estimate_values_above", above, ma)):
+            for x, a, b in zip(probes, impl, mod):
+                if not close(a, b, Fraction(max(nonnull, 1))):
+                    ctx.disagree(c, None if a is None else float(a), None if b is None else float(b),
+                                 what="%s of column %r differs from the model at %r (operation %d of the table sequence)" % (what, name, x, k))
                     return
 
 
@@ -1250,6 +1573,12 @@ SEQ_PAIRS = [
     (list(range(-80, 0)), list(range(0, 90, 3))),
     # same number of bins, same minimum and maximum, different counts (a cache keyed on too little would mix them up)
     ([0, 0, 1], [0, 1]), ([-3, 4, 4, 4], [-3, -3, 4]),
+    # exactly at and one past the bin limit of a sum: 25 + 25 bins fit (nothing is trimmed: no left tail may appear), 25 + 26 do not
+    # (the left column fills numpy's bins 0, 1, 3, 5, ..., 47, 49: 26 bins whose smallest gap is the first one, so a trim - if there
+    # is one - merges the first two bins; the right column has 24 / 25 bins far away)
+    ([1000 + v for v in [0, 1] + list(range(3, 48, 2)) + [50]], [5000 + 10 * i for i in range(24)]),
+    ([-2000 + v for v in [0, 1] + list(range(3, 48, 2)) + [50]], [5000 + 10 * i for i in range(24)]),
+    ([1000 + v for v in [0, 1] + list(range(3, 48, 2)) + [50]], [5000 + 10 * i for i in range(25)]),
 ]
 
 
@@ -1333,6 +1662,99 @@ def random_pseq_case(ctx):
     if rng.random() < 0.15:
         c["type"] = rng.choice(["DOUBLE", "DOUBLE-0"])
     return c
+
+
+# ---- table profiles: TableProfile + TableProfile with different column sets and different row counts
+
+
+def _col(name, values, typ="INTEGER"):
+    return [name, typ, list(values)]
+
+
+TABLE_PAIRS = [
+    # (left frame, right frame): the right one lacks a numeric column of the left one and is shorter / longer / as long
+    ("right-lacks-shorter", [_col("a", [0, 3, 7, 9]), _col("b", [5, None, 2, 2])], [_col("a", [4, 1])]),
+    ("right-lacks-longer", [_col("a", [4, 1]), _col("b", [5, 2])], [_col("a", [0, 3, 7, 9, 9, 2])]),
+    ("right-lacks-equal", [_col("a", [4, 1, 0]), _col("b", [5, 2, 2])], [_col("a", [0, 3, 7])]),
+    ("right-lacks-one-row", [_col("b", [0]), _col("a", [0])], [_col("a", [1, 2, 3])]),
+    ("right-empty", [_col("a", [0, 3, 7]), _col("b", [-5, 0, None])], []),
+    ("left-empty", [], [_col("a", [0, 3, 7])]),
+    ("left-lacks", [_col("a", [4, 1])], [_col("b", [1, 1, 8, 0, None, 3]), _col("a", [-2, 0, 5, 5, 6, 1])]),
+    ("different-positions", [_col("a", [0, 3, 7, 9]), _col("b", [5, None, 2, 2]), _col("c", [1, 1, 1, 2])],
+     [_col("c", [0, 6]), _col("d", [3, 3]), _col("a", [8, -1])]),
+    ("disjoint", [_col("a", [0, 1, 2]), _col("b", [7, 7, 9])], [_col("c", [1, 2, 3, 4, 5])]),
+    # names that differ only in case / are not ASCII / contain a space: looked up by exact name
+    ("look-alike-names", [_col("a", [0, 1, 2]), _col("A", [7, 7, 9]), _col("名前", [-3, 0, 3])], [_col("A", [1, 2, 3, 4]), _col("a ", [5, 5, 5, 5]), _col("名前", [9, None, 9, 1])]),
+    ("text-first-on-the-right", [_col("a", [0, -3, -7]), _col("b", [2, 4, 6])], [_col("s", [1, 2, 3, 4, 5], "VARCHAR"), _col("b", [0, -4, -1, None, 9])]),
+    ("text-first-on-the-left", [_col("s", [1, 2], "VARCHAR"), _col("f", [0, 1], "BOOLEAN"), _col("a", [0, 9])], [_col("f", [1, 1, 0], "BOOLEAN")]),
+    ("all-null-on-the-left", [_col("a", [None, None]), _col("b", [1, 5])], [_col("b", [2, 3, 4])]),
+    ("double", [_col("a", [0, 3, -7, 9], "DOUBLE-0"), _col("b", [5, None, 2, 2], "DOUBLE")], [_col("b", [4], "DOUBLE")]),
+    ("many-values", [_col("a", list(range(0, 140, 2))), _col("b", [(i * 37) % 300 for i in range(70)])], [_col("b", [(i * 11) % 300 for i in range(90)])]),
+    ("many-values-right-lacks", [_col("a", list(range(-80, 0))), _col("b", list(range(0, 240, 3)))], [_col("a", list(range(0, 90, 3)))]),
+]
+
+
+def table_patterns(first):
+    return [
+        ("add", [["tadd", 2, 0, 1], ["q", 2, first]]),
+        ("radd", [["tadd", 2, 1, 0], ["q", 2, first]]),
+        ("query-add-query", [["q", 0, first], ["tadd", 2, 0, 1], ["q", 2, first], ["q", 0]]),
+        ("running", [["tadd", 0, 0, 1], ["q", 0, first], ["tadd", 0, 0, 1], ["q", 0], ["tadd", 0, 0, 0], ["q", 0, first]]),
+        ("sum-of-sums", [["tadd", 2, 0, 1], ["tadd", 3, 1, 0], ["tadd", 4, 2, 3], ["q", 4, first], ["tadd", 5, 4, 2], ["q", 5]]),
+        ("self", [["tadd", 2, 0, 0], ["q", 2, first]]),
+        ("right-again", [["tadd", 2, 0, 1], ["q", 2, first], ["tadd", 3, 2, 1], ["q", 3]]),
+        ("sum-on-the-right", [["tadd", 2, 1, 0], ["tadd", 3, 0, 2], ["q", 3, first], ["tadd", 4, 1, 3], ["q", 4]]),
+    ]
+
+
+def tseq_cases(ctx):
+    for name, left, right in TABLE_PAIRS:
+        big = sum(len(c[2]) for c in left + right) > 100
+        for first in (("ba",) if big else ("ba", "ab", "at")):
+            for pat, ops in table_patterns(first):
+                if first != "ba" and pat not in ("add", "query-add-query", "running"):
+                    continue
+                yield {"kind": "tseq", "tables": [[list(c) for c in left], [list(c) for c in right]], "ops": [list(o) for o in ops],
+                       "family": "tseq:" + pat, "pair": name}
+
+
+def random_tseq_case(ctx):
+    rng = ctx.rng
+    ntab = rng.choice([2, 2, 3, 4])
+    pool = ["a", "b", "c", "d"]
+    typ_of = {n: ("INTEGER" if rng.random() < 0.8 else rng.choice(["DOUBLE", "DOUBLE", "VARCHAR", "BOOLEAN"])) for n in pool}
+    tables = []
+    for _ in range(ntab):
+        rows = rng.choice([0, 1, 1, 2, 3, 5, 8, 20, 70])
+        if rows == 0:
+            tables.append([])
+            continue
+        names = rng.sample(pool, rng.choice([1, 2, 2, 3, 4]))
+        cols = []
+        for n in names:
+            typ = typ_of[n] if typ_of[n] != "DOUBLE" else rng.choice(["DOUBLE", "DOUBLE-0"])
+            shape = rng.choice(["small", "uniform", "negative", "zero-max", "zero-min", "nulls", "wide"])
+            lo, hi = {"small": (0, 6), "uniform": (0, 1000), "negative": (-500, 50), "zero-max": (-40, 0), "zero-min": (0, 40),
+                      "nulls": (0, 3), "wide": (-10**6, 10**6)}[shape]
+            pnull = 1.0 if shape == "nulls" and rng.random() < 0.5 else rng.choice([0, 0, 0.2])
+            vals = [None if rng.random() < pnull else rng.randint(lo, hi) for _ in range(rows)]
+            if shape in ("zero-max", "zero-min"):
+                vals[rng.randrange(rows)] = 0
+            cols.append([n, typ, vals])
+        tables.append(cols)
+    have = list(range(ntab))
+    ops = []
+    for _ in range(rng.choice([2, 3, 4, 6, 8])):
+        if rng.random() < 0.35 and ops:
+            ops.append(["q", rng.choice(have), rng.choice(["ba", "ab", "at"])])
+        else:
+            dst = rng.choice(have + [max(have) + 1]) if max(have) < 9 else rng.choice(have)
+            ops.append(["tadd", dst, rng.choice(have), rng.choice(have)])
+            if dst not in have:
+                have.append(dst)
+    last = [o[1] for o in ops if o[0] == "tadd"]
+    ops.append(["q", last[-1] if last else have[0], "ba"])
+    return {"kind": "tseq", "tables": tables, "ops": ops, "family": "tseq:random"}
 
 
 # ---- histogram objects: plain update() streams in every order, operands queried again after a `+`
@@ -1465,6 +1887,34 @@ def hseq_stream_cases(ctx):
     yield as_mode({"kind": "hseq", "mode": "f", "family": "hseq:stream-constant", "grid": 4, "levels": 4, "prog": stream_prog(0, 8, [5.0] * 4, q_every=1)})
     yield as_mode({"kind": "hseq", "mode": "f", "family": "hseq:stream-single", "grid": 4, "levels": 4, "prog": stream_prog(0, 50, [0.0])})
     yield as_mode({"kind": "hseq", "mode": "f", "family": "hseq:stream-single", "grid": 4, "levels": 4, "prog": stream_prog(0, 50, [-7.5], [3])})
+
+
+def hseq_exact_hit_cases(ctx):
+    """Query, then an update that only **grows an existing bin** (the value is a bin centre: no bin is added, merged or moved),
+    then query again — anything an estimator derived from the bins at the first query (running totals, the total, a located
+    bin) and kept must not answer the second one.  The hit arrives through `update()`, through `+` (the right operand's bins sit
+    on the left operand's centres) and through `bulkload`; every bin in turn, weights above 1, at and below the bin limit."""
+    rng = ctx.rng
+    for n, cap in ((3, 8), (5, 8), (8, 8), (12, 12), (4, 50), (50, 50)):
+        fam = rng.choice(FAMILIES)
+        vals = _scale_values(rng, list(range(n)), fam)
+        order = stream_order(rng, n, rng.choice(ORDERS))
+        base = [["new", 0, cap]] + [["upd", 0, vals[r], 1] for r in order] + [["q", 0]]
+        hits = list(range(n)) if n <= 12 else sorted(rng.sample(range(n), 6) + [0, n - 1])
+        # every bin in turn, a query after each
+        prog = list(base)
+        for i in hits:
+            prog += [["upd", 0, vals[i], rng.choice([1, 1, 3, 100])], ["q", 0]]
+        yield as_mode({"kind": "hseq", "mode": "q" if (n <= 12 and fam != "wide" and rng.random() < 0.3) else "f", "family": "hseq:exact-hit-update",
+                       "grid": 8, "levels": 8, "prog": prog})
+        # through `+`: the right operand holds some of the same centres (its own object is asked too, before and after)
+        some = [vals[i] for i in hits[:: 2]]
+        prog = list(base) + [["new", 1, cap]] + [["upd", 1, v, 2] for v in some] + [["q", 1], ["add", 0, 0, 1], ["q", 0], ["q", 1],
+                                                                                    ["add", 2, 1, 0], ["q", 2], ["q", 1]]
+        yield as_mode({"kind": "hseq", "mode": "f", "family": "hseq:exact-hit-add", "grid": 8, "levels": 8, "prog": prog})
+        if n <= 12:
+            prog = list(base) + [["bulk", 0, [vals[i] for i in hits[1:]], "f8"], ["q", 0], ["upd", 0, vals[hits[0]], 5], ["q", 0]]
+            yield as_mode({"kind": "hseq", "mode": "f", "family": "hseq:exact-hit-bulk", "grid": 8, "levels": 8, "prog": prog})
 
 
 ADD_PAIRS = [
@@ -1630,7 +2080,7 @@ def run(ctx):
             ctx.hit("corpus:fixed-finding-witness")
     evaluate(ctx, [dict(c) for c in BOUNDARY])
     # histogram objects: plain update() streams in every order, judged against the inserted values; operands after a `+`
-    hs = list(hseq_stream_cases(ctx)) + list(hseq_add_cases(ctx)) + list(hseq_bulk_cases(ctx))
+    hs = list(hseq_stream_cases(ctx)) + list(hseq_exact_hit_cases(ctx)) + list(hseq_add_cases(ctx)) + list(hseq_bulk_cases(ctx))
     ctx.note("histogram_object_sequence_cases", len(hs))
     for i in range(0, len(hs), 80):
         if ctx.violations:
@@ -1644,6 +2094,13 @@ def run(ctx):
         if ctx.violations:
             break
         evaluate(ctx, seqs[i : i + 60])
+    # table-level sums: different column sets, different row counts, sums of sums
+    tsq = list(tseq_cases(ctx))
+    ctx.note("table_profile_sequence_cases", len(tsq))
+    for i in range(0, len(tsq), 60):
+        if ctx.violations:
+            break
+        evaluate(ctx, tsq[i : i + 60])
     cuts = list(cut_cases(ctx, ctx.scale(25, 400)))
     ctx.note("profile_cut_cases", len(cuts))
     for i in range(0, len(cuts), 100):
@@ -1657,7 +2114,8 @@ def run(ctx):
         cases = [random_hist_case(ctx) for _ in range(60)] if done_h < n_h else []
         done_h += len(cases)
         if done_p < n_p:
-            cases += [random_profile_case(ctx) for _ in range(10)] + [random_pseq_case(ctx) for _ in range(4)] + [random_hseq_case(ctx) for _ in range(8)]
+            cases += ([random_profile_case(ctx) for _ in range(10)] + [random_pseq_case(ctx) for _ in range(4)] + [random_hseq_case(ctx) for _ in range(8)]
+                      + [random_tseq_case(ctx) for _ in range(3)])
             done_p += 10
             done_s += 4
             done_o += 8
@@ -1673,7 +2131,7 @@ def intensify(ctx):
     n = 0
     while ctx.time_left() > 5 and n < 2000 and not ctx.violations:
         evaluate(ctx, [random_hist_case(ctx) for _ in range(50)] + [random_profile_case(ctx) for _ in range(10)] + [random_pseq_case(ctx) for _ in range(10)]
-                 + [random_hseq_case(ctx) for _ in range(20)])
+                 + [random_hseq_case(ctx) for _ in range(20)] + [random_tseq_case(ctx) for _ in range(10)])
         n += 90
     flush_pending(ctx)
 
@@ -1692,6 +2150,14 @@ def _k01(case, failure):
     d = failure.get("detail") or {}
     clause = str(failure.get("clause", ""))
     if not (clause.startswith("count_at: estimate") or clause.startswith("profile: estimate")) or "None" in clause:
+        return False
+    if isinstance(d, dict) and d.get("no_trim"):
+        # no `+` behind this profile could have trimmed: its first bin is at its minimum (C14.small_sum_keeps_first_bin_at_minimum,
+        # C14.one_batch_profile_ok) and a left tail cannot exist - whatever fails here is not this finding
+        return False
+    if isinstance(case, dict) and case.get("kind") == "profile" and isinstance(case.get("values"), list) and len(case["values"]) <= 25000:
+        # the profile of ONE batch: numpy's first left edge is the data minimum and the minimum falls into the first bin, so the
+        # first bin is at the minimum and there is no left tail (C14.one_batch_profile_ok) - whatever fails here is not this finding
         return False
     if not isinstance(d, dict) or not d.get("left_tail"):
         return False
